@@ -271,8 +271,11 @@ func c02Alphabet(c *vlib.Ctx) (cfgs []CfgLit, intentsFor func(oc int) []ref.Inte
 	for oc, o := range ochoices {
 		for _, cred := range []bool{false, true} {
 			for pna := 0; pna < 3; pna++ {
-				for _, x := range mhs {
+				for xi, x := range mhs {
 					for _, st := range statuses {
+						if st != 0 && xi%8 != 0 {
+							continue // the explicit success status is combined with every eighth (methods, headers) pair
+						}
 						cfgs = append(cfgs, CfgLit{Origins: o.patterns, Credentialed: cred, Methods: x.m, RequestHeaders: x.h, Status: st, PNA: pna == 1, PNANoCORS: pna == 2, TolPSL: true, TolInsecure: true})
 						ocOf = append(ocOf, oc)
 					}
@@ -370,6 +373,9 @@ func checkC02(c *vlib.Ctx) (string, string) {
 				for _, pt := range perturbs {
 					if pt != 0 && (len(in.Headers) == 0) {
 						continue
+					}
+					if dbg && pt != 0 && pt != 4 {
+						continue // debug mode does not look at the ACRH lines: none / all perturbations suffice
 					}
 					evals++
 					got, _ := c02BrowseRec(h, in, pt, rec)
